@@ -208,7 +208,14 @@ def build_universe(U: dict, fw: str, tag: str) -> Dict[int, type]:
         d: Dict[str, Any] = {"compute_framework_rule": classmethod(lambda cls, _f=fwc: {_f})}
         if g["kind"] == "root":
             d["input_data"] = classmethod(lambda cls, _c=tuple(g["creator"]): DataCreator(set(_c)))
-            d["calculate_feature"] = classmethod(lambda cls, data, features, _c=tuple(g["cols"]): make_native(fw, list(_c)))
+            def root_calc(cls: Any, data: Any, features: Any, _c: Any = tuple(g["cols"])) -> Any:
+                # in-place cases: a NARROW root that produces exactly the columns of the features it is asked for (the object's
+                # table then consists of requested columns only until a later step adds to it); otherwise all its columns
+                if CUR.get("inplace"):
+                    want = {str(n).split("~")[0] for n in features.get_all_names()}
+                    return make_native(fw, [c for c in _c if c.split("~")[0] in want])
+                return make_native(fw, list(_c))
+            d["calculate_feature"] = classmethod(root_calc)
         else:
             def input_features(self: Any, options: Any, feature_name: Any, _i: Any = tuple(g["inputs"]), _g: int = gid) -> Any:
                 s = {Feature(n) for n in _i}
